@@ -142,11 +142,33 @@ pub fn c15_dim_hash_const_vs_variable() {
     dim_pair(&[], true, &[], false, false);
 }
 
+/// id with two const labels where one value is empty: ("", v) and (w, "") are told apart (the
+/// position of an empty value matters), and equal exactly when both positions agree.
+#[cfg_attr(kani, kani::proof, kani::unwind(6),
+    kani::stub(<[crate::proto::LabelPair]>::sort, sort_stub),
+    kani::stub(<fnv::FnvHasher as std::hash::Hasher>::write, fnv_write_injective))]
+pub fn c15_id_empty_value_position() {
+    let (v, w) = (sym_s(1, false), sym_s(1, false));
+    let mut m1 = Map::new();
+    m1.insert(String::from("k"), String::new());
+    m1.insert(String::from("l"), v);
+    let mut m2 = Map::new();
+    m2.insert(String::from("k"), w);
+    m2.insert(String::from("l"), String::new());
+    let d1 = Desc::new(String::from("a"), String::from("h"), Vec::new(), m1).unwrap();
+    let d2 = Desc::new(String::from("a"), String::from("h"), Vec::new(), m2).unwrap();
+    assert!(d1.id != d2.id, "C15 same identity exactly when same name and same const-label values (an empty value still occupies its position)");
+    assert!(d1.dim_hash == d2.dim_hash, "C15 same help and label names give the same dimension signature");
+    std::mem::forget(d1);
+    std::mem::forget(d2);
+}
+
 pub fn dispatch(name: &str) -> Option<fn()> {
     Some(match name {
         "c15_id_boundary_shift_21_vs_12" => c15_id_boundary_shift_21_vs_12,
         "c15_id_boundary_shift_20_vs_11" => c15_id_boundary_shift_20_vs_11,
         "c15_id_same_shape_22" => c15_id_same_shape_22,
+        "c15_id_empty_value_position" => c15_id_empty_value_position,
         "c15_id_two_const_labels_order_independent" => c15_id_two_const_labels_order_independent,
         "c15_dim_hash_variable_label_sets" => c15_dim_hash_variable_label_sets,
         "c15_dim_hash_const_vs_variable" => c15_dim_hash_const_vs_variable,
